@@ -84,6 +84,9 @@ fn add_failure_injection(p: &mut Pool, r: &mut crate::rng::Rng) {
     p.partials.push(("pf".into(), "<{{ tagv }}{% capture pc %}in{% if fail == 'partial' %}{{ nope }}{% endif %}{% endcapture %}{{ pc }}{% increment cnt %}>".into()));
     p.partials.push(("pg0".into(), "(g0:{{ tagv }})".into()));
     p.partials.push(("pg1".into(), "(g1:{% increment cnt %})".into()));
+    // a different partial whose name only differs by the `.liquid` suffix: which of the two a
+    // parser saw first must not matter
+    p.partials.push(("pg0.liquid".into(), "(g0L:{{ tagv }})".into()));
     p.mains.push(designed.to_string());
     let modes = ["none", "capture", "loop", "after-break", "partial", "ifchanged"];
     for (k, d) in p.datas.iter_mut().enumerate() {
@@ -92,7 +95,7 @@ fn add_failure_injection(p: &mut Pool, r: &mut crate::rng::Rng) {
             kv.push(("fail".into(), crate::val::RVal::Str(mode.into())));
             kv.push(("tagv".into(), crate::val::RVal::Str(format!("T{k}"))));
             // the same tag names a different partial for different data objects
-            kv.push(("pname".into(), crate::val::RVal::Str(["pg0", "pg1"][k % 2].into())));
+            kv.push(("pname".into(), crate::val::RVal::Str(["pg0", "pg1", "pg0.liquid"][k % 3].into())));
         }
     }
 }
